@@ -115,9 +115,12 @@ func c04CheckTable(r *vs.JobResult, name string, table *escapeTable, pairs []c04
 		domain[p.b] = true
 		codes[p.c] = true
 	}
-	for _, x := range payloads {
+	for xi, x := range payloads {
 		r.Execs++
 		enc := escapeData(x, table)
+		if xi == len(payloads)-1 && len(r.Samples) < 3 {
+			r.Samples = append(r.Samples, fmt.Sprintf("table %s payload %q -> escaped %q (streaming=%v: every split point x output buffer size)", clipStr(name, 80), x, enc, streaming))
+		}
 		// protected bytes never appear in the encoding
 		for _, e := range enc {
 			if domain[e] && e != escapeLeaderByte {
